@@ -26,7 +26,9 @@ impl log::Log for NullLogger {
         // a log sink may itself use the crate (a DLT sink stamps its records): re-entering the pure helpers from inside
         // a log call must be harmless
         let ts = dlt_core::dlt::DltTimeStamp::from_ms(1_700_000_000_123);
-        std::hint::black_box(dlt_core::dlt::DltTimeStamp::from_us(ts.seconds as u64 * 1_000_000 + ts.microseconds as u64));
+        std::hint::black_box(dlt_core::dlt::DltTimeStamp::from_us(
+            ts.seconds as u64 * 1_000_000 + ts.microseconds as u64,
+        ));
         if FORMAT_LOGS.with(|f| f.get()) {
             let s = format!("{}", record.args());
             std::hint::black_box(s);
@@ -53,14 +55,63 @@ pub fn filter_by_index(i: u8) -> Option<ProcessedDltFilterConfig> {
     let cfg = match i % 8 {
         0 => return None,
         // drops every message that has an extended header
-        1 => DltFilterConfig { min_log_level: None, app_ids: s(&[]), ecu_ids: None, context_ids: None, app_id_count: 1, context_id_count: 0 },
+        1 => DltFilterConfig {
+            min_log_level: None,
+            app_ids: s(&[]),
+            ecu_ids: None,
+            context_ids: None,
+            app_id_count: 1,
+            context_id_count: 0,
+        },
         // keeps everything
-        2 => DltFilterConfig { min_log_level: Some(6), app_ids: None, ecu_ids: None, context_ids: None, app_id_count: 0, context_id_count: 0 },
-        3 => DltFilterConfig { min_log_level: Some(3), app_ids: None, ecu_ids: None, context_ids: None, app_id_count: 0, context_id_count: 0 },
-        4 => DltFilterConfig { min_log_level: None, app_ids: s(&["APP", "A", ""]), ecu_ids: s(&["ECU"]), context_ids: None, app_id_count: 3, context_id_count: 0 },
-        5 => DltFilterConfig { min_log_level: Some(1), app_ids: None, ecu_ids: s(&[]), context_ids: s(&["CTX", "CON"]), app_id_count: 0, context_id_count: 5 },
-        6 => DltFilterConfig { min_log_level: Some(200), app_ids: None, ecu_ids: None, context_ids: s(&[]), app_id_count: 0, context_id_count: 1 },
-        _ => DltFilterConfig { min_log_level: Some(5), app_ids: s(&["APP"]), ecu_ids: None, context_ids: s(&["CON"]), app_id_count: 1, context_id_count: 1 },
+        2 => DltFilterConfig {
+            min_log_level: Some(6),
+            app_ids: None,
+            ecu_ids: None,
+            context_ids: None,
+            app_id_count: 0,
+            context_id_count: 0,
+        },
+        3 => DltFilterConfig {
+            min_log_level: Some(3),
+            app_ids: None,
+            ecu_ids: None,
+            context_ids: None,
+            app_id_count: 0,
+            context_id_count: 0,
+        },
+        4 => DltFilterConfig {
+            min_log_level: None,
+            app_ids: s(&["APP", "A", ""]),
+            ecu_ids: s(&["ECU"]),
+            context_ids: None,
+            app_id_count: 3,
+            context_id_count: 0,
+        },
+        5 => DltFilterConfig {
+            min_log_level: Some(1),
+            app_ids: None,
+            ecu_ids: s(&[]),
+            context_ids: s(&["CTX", "CON"]),
+            app_id_count: 0,
+            context_id_count: 5,
+        },
+        6 => DltFilterConfig {
+            min_log_level: Some(200),
+            app_ids: None,
+            ecu_ids: None,
+            context_ids: s(&[]),
+            app_id_count: 0,
+            context_id_count: 1,
+        },
+        _ => DltFilterConfig {
+            min_log_level: Some(5),
+            app_ids: s(&["APP"]),
+            ecu_ids: None,
+            context_ids: s(&["CON"]),
+            app_id_count: 1,
+            context_id_count: 1,
+        },
     };
     Some(ProcessedDltFilterConfig::from(cfg))
 }
@@ -73,7 +124,8 @@ fn is_suffix(rest: &[u8], buf: &[u8]) -> bool {
     if rest.is_empty() {
         return true; // the empty slice may be a fresh `&[]`
     }
-    rest.as_ptr() as usize + rest.len() == buf.as_ptr() as usize + buf.len() && rest.len() <= buf.len()
+    rest.as_ptr() as usize + rest.len() == buf.as_ptr() as usize + buf.len()
+        && rest.len() <= buf.len()
 }
 
 fn err_class(e: &DltParseError) -> &'static str {
@@ -89,10 +141,23 @@ fn err_class(e: &DltParseError) -> &'static str {
 
 pub fn c02_decode(buf: &[u8], storage: bool) -> CheckResult {
     let rv = refcodec::decode(buf, storage);
-    let cv = guard(|| dlt_message(buf, None, storage).map(|(rest, m)| (rest.len(), m)))
-        .map_err(|p| Violation::from_panic(&format!("dlt_message(storage={}) on {}", storage, hex_short(buf)), &p))?;
+    let cv = guard(|| dlt_message(buf, None, storage).map(|(rest, m)| (rest.len(), m))).map_err(
+        |p| {
+            Violation::from_panic(
+                &format!("dlt_message(storage={}) on {}", storage, hex_short(buf)),
+                &p,
+            )
+        },
+    )?;
     let bad = |what: &str, detail: String| -> Violation {
-        viol!(format!("decode:{}", what), "parser and reference decoder disagree ({}), storage={}: {}\n  bytes={}", what, storage, detail, hex_short(buf))
+        viol!(
+            format!("decode:{}", what),
+            "parser and reference decoder disagree ({}), storage={}: {}\n  bytes={}",
+            what,
+            storage,
+            detail,
+            hex_short(buf)
+        )
     };
     let mut pass = Pass::new(false);
     match (&rv, &cv) {
@@ -106,34 +171,84 @@ pub fn c02_decode(buf: &[u8], storage: bool) -> CheckResult {
             match (&fc.net_slices, r.is_network_trace()) {
                 (Some(net), true) => {
                     let want: Vec<Vec<u8>> = match &r.payload {
-                        RPayload::Verbose(a) => a.iter().filter_map(|x| if let RVal::Raw(d) = &x.val { Some(d.clone()) } else { None }).collect(),
+                        RPayload::Verbose(a) => a
+                            .iter()
+                            .filter_map(|x| {
+                                if let RVal::Raw(d) = &x.val {
+                                    Some(d.clone())
+                                } else {
+                                    None
+                                }
+                            })
+                            .collect(),
                         _ => vec![],
                     };
                     if *net != want {
-                        return Err(bad("network-trace-slices", format!("crate slices {:?} != reference raw arguments {:?}", short_dbg(net), short_dbg(&want))));
+                        return Err(bad(
+                            "network-trace-slices",
+                            format!(
+                                "crate slices {:?} != reference raw arguments {:?}",
+                                short_dbg(net),
+                                short_dbg(&want)
+                            ),
+                        ));
                     }
                     r.payload = RPayload::Verbose(vec![]);
                     c.payload = RPayload::Verbose(vec![]);
                 }
                 (None, false) => {}
-                (a, b) => return Err(bad("network-trace-kind", format!("crate network-trace payload: {}, reference says network trace: {}", a.is_some(), b))),
+                (a, b) => {
+                    return Err(bad(
+                        "network-trace-kind",
+                        format!(
+                            "crate network-trace payload: {}, reference says network trace: {}",
+                            a.is_some(),
+                            b
+                        ),
+                    ))
+                }
             }
             if c != r {
-                return Err(bad("field-values", format!("crate {} != reference {}", short_dbg(&c), short_dbg(&r))));
+                return Err(bad(
+                    "field-values",
+                    format!("crate {} != reference {}", short_dbg(&c), short_dbg(&r)),
+                ));
             }
             if buf.len() - rest != *consumed {
-                return Err(bad("consumed", format!("crate consumed {} bytes, reference {}", buf.len() - rest, consumed)));
+                return Err(bad(
+                    "consumed",
+                    format!(
+                        "crate consumed {} bytes, reference {}",
+                        buf.len() - rest,
+                        consumed
+                    ),
+                ));
             }
             let nonempty = r.len as usize > r.headers_len();
             pass.nontrivial = buf.len() >= 4 && nonempty;
             pass = pass.class("verdict:message").class(rm.payload_kind());
         }
-        (Verdict::Incomplete, Ok((_, ParsedMessage::Item(_) | ParsedMessage::Invalid | ParsedMessage::FilteredOut(_)))) => {
+        (
+            Verdict::Incomplete,
+            Ok((
+                _,
+                ParsedMessage::Item(_) | ParsedMessage::Invalid | ParsedMessage::FilteredOut(_),
+            )),
+        ) => {
             return Err(bad("reference-incomplete-crate-ok", short_dbg(&cv)));
         }
-        (Verdict::Incomplete, Err(DltParseError::IncompleteParse { .. })) => pass = pass.class("verdict:incomplete"),
-        (Verdict::IncompleteOrReject(_), Err(_)) | (Verdict::IncompleteOrReject(_), Ok((_, ParsedMessage::Invalid))) => pass = pass.class("verdict:incomplete-or-reject"),
-        (Verdict::Reject(_), Err(DltParseError::ParsingHickup(_) | DltParseError::Unrecoverable(_))) | (Verdict::Reject(_), Ok((_, ParsedMessage::Invalid))) => {
+        (Verdict::Incomplete, Err(DltParseError::IncompleteParse { .. })) => {
+            pass = pass.class("verdict:incomplete")
+        }
+        (Verdict::IncompleteOrReject(_), Err(_))
+        | (Verdict::IncompleteOrReject(_), Ok((_, ParsedMessage::Invalid))) => {
+            pass = pass.class("verdict:incomplete-or-reject")
+        }
+        (
+            Verdict::Reject(_),
+            Err(DltParseError::ParsingHickup(_) | DltParseError::Unrecoverable(_)),
+        )
+        | (Verdict::Reject(_), Ok((_, ParsedMessage::Invalid))) => {
             pass.nontrivial = buf.len() >= 4;
             pass = pass.class("verdict:reject");
         }
@@ -150,10 +265,17 @@ pub fn c02_decode(buf: &[u8], storage: bool) -> CheckResult {
                 Ok((_, ParsedMessage::FilteredOut(_))) => "filtered",
                 Err(e) => err_class(e),
             };
-            return Err(bad(&format!("ref-{}-vs-crate-{}", rc, cc), format!("reference {} / crate {}", short_dbg(r), short_dbg(c))));
+            return Err(bad(
+                &format!("ref-{}-vs-crate-{}", rc, cc),
+                format!("reference {} / crate {}", short_dbg(r), short_dbg(c)),
+            ));
         }
     }
-    Ok(pass.class(if storage { "storage-mode" } else { "plain-mode" }))
+    Ok(pass.class(if storage {
+        "storage-mode"
+    } else {
+        "plain-mode"
+    }))
 }
 
 // ------------------------------------------------------------------------------------------------
@@ -177,16 +299,48 @@ pub fn use_message(m: &Message, ctx: &str) -> Result<(), Violation> {
         }
         (b.len(), l, invalid)
     })
-    .map_err(|p| Violation::from_panic(&format!("using the message returned by {} ({})", ctx, short_dbg(m)), &p))?;
+    .map_err(|p| {
+        Violation::from_panic(
+            &format!("using the message returned by {} ({})", ctx, short_dbg(m)),
+            &p,
+        )
+    })?;
     if let Some(i) = r.2 {
-        return Err(viol!("returned-argument-invalid", "{} returned a message whose argument {} fails Argument::valid(): {}", ctx, i, short_dbg(m)));
+        return Err(viol!(
+            "returned-argument-invalid",
+            "{} returned a message whose argument {} fails Argument::valid(): {}",
+            ctx,
+            i,
+            short_dbg(m)
+        ));
     }
     Ok(())
 }
 
-pub const STRING_SIZES: [usize; 14] = [0, 1, 2, 3, 4, 5, 6, 7, 8, 255, 256, 65535, 70000, usize::MAX];
+pub const STRING_SIZES: [usize; 14] = [
+    0,
+    1,
+    2,
+    3,
+    4,
+    5,
+    6,
+    7,
+    8,
+    255,
+    256,
+    65535,
+    70000,
+    usize::MAX,
+];
 
-pub fn c03(buf: &[u8], filter_idx: u8, size_sel: u8, types: &[dlt_core::dlt::TypeInfo], big_endian: bool) -> CheckResult {
+pub fn c03(
+    buf: &[u8],
+    filter_idx: u8,
+    size_sel: u8,
+    types: &[dlt_core::dlt::TypeInfo],
+    big_endian: bool,
+) -> CheckResult {
     let mut past_headers = false;
     let mut pass = Pass::new(false);
     let filter = filter_by_index(if filter_idx % 8 == 0 { 1 } else { filter_idx });
@@ -204,7 +358,15 @@ pub fn c03(buf: &[u8], filter_idx: u8, size_sel: u8, types: &[dlt_core::dlt::Typ
                 Err(_) => Ok(Some(ParsedMessage::Invalid)),
             })
             .map_err(|p| Violation::from_panic(&format!("{} on {}", what, hex_short(buf)), &p))?
-            .map_err(|e| viol!("remainder-outside-input", "{}: {} ({})", what, e, hex_short(buf)))?;
+            .map_err(|e| {
+                viol!(
+                    "remainder-outside-input",
+                    "{}: {} ({})",
+                    what,
+                    e,
+                    hex_short(buf)
+                )
+            })?;
             if let Some(pm) = res {
                 past_headers = true;
                 if let ParsedMessage::Item(m) = &pm {
@@ -214,42 +376,97 @@ pub fn c03(buf: &[u8], filter_idx: u8, size_sel: u8, types: &[dlt_core::dlt::Typ
             }
         }
     }
-    let r = guard(|| dlt_consume_msg(buf).map(|(rest, c)| (inside(rest, buf), c)))
-        .map_err(|p| Violation::from_panic(&format!("dlt_consume_msg on {}", hex_short(buf)), &p))?;
+    let r =
+        guard(|| dlt_consume_msg(buf).map(|(rest, c)| (inside(rest, buf), c))).map_err(|p| {
+            Violation::from_panic(&format!("dlt_consume_msg on {}", hex_short(buf)), &p)
+        })?;
     if let Ok((false, _)) = r {
-        return Err(viol!("remainder-outside-input", "dlt_consume_msg returned a remainder outside the input ({})", hex_short(buf)));
+        return Err(viol!(
+            "remainder-outside-input",
+            "dlt_consume_msg returned a remainder outside the input ({})",
+            hex_short(buf)
+        ));
     }
     if matches!(r, Ok((_, Some(_)))) {
         pass.classes.push("consumed-message");
     }
     let r = guard(|| skip_storage_header(buf).map(|(rest, n)| (inside(rest, buf), rest.len(), n)))
-        .map_err(|p| Violation::from_panic(&format!("skip_storage_header on {}", hex_short(buf)), &p))?;
+        .map_err(|p| {
+            Violation::from_panic(&format!("skip_storage_header on {}", hex_short(buf)), &p)
+        })?;
     if let Ok((ok, rest_len, n)) = r {
         if !ok || n != 16 || rest_len + 16 != buf.len() {
-            return Err(viol!("skip-storage-header", "skip_storage_header returned ({} bytes left, {}) for a {}-byte input", rest_len, n, buf.len()));
+            return Err(viol!(
+                "skip-storage-header",
+                "skip_storage_header returned ({} bytes left, {}) for a {}-byte input",
+                rest_len,
+                n,
+                buf.len()
+            ));
         }
     }
-    let r = guard(|| forward_to_next_storage_header(buf).map(|(n, rest)| (n, inside(rest, buf), rest.len())))
-        .map_err(|p| Violation::from_panic(&format!("forward_to_next_storage_header on {}", hex_short(buf)), &p))?;
+    let r = guard(|| {
+        forward_to_next_storage_header(buf).map(|(n, rest)| (n, inside(rest, buf), rest.len()))
+    })
+    .map_err(|p| {
+        Violation::from_panic(
+            &format!("forward_to_next_storage_header on {}", hex_short(buf)),
+            &p,
+        )
+    })?;
     if let Some((n, ok, rest_len)) = r {
         if !ok || n as usize + rest_len != buf.len() {
-            return Err(viol!("forward-remainder", "forward_to_next_storage_header returned ({}, {} bytes) for a {}-byte input", n, rest_len, buf.len()));
+            return Err(viol!(
+                "forward-remainder",
+                "forward_to_next_storage_header returned ({}, {} bytes) for a {}-byte input",
+                n,
+                rest_len,
+                buf.len()
+            ));
         }
     }
     let size = STRING_SIZES[size_sel as usize % STRING_SIZES.len()];
     for size in [size, buf.len(), buf.len() / 2] {
         let r = guard(|| {
-            dlt_zero_terminated_string(buf, size).map(|(rest, s)| (inside(rest, buf), std::str::from_utf8(s.as_bytes()).is_ok() && inside(s.as_bytes(), buf)))
+            dlt_zero_terminated_string(buf, size).map(|(rest, s)| {
+                (
+                    inside(rest, buf),
+                    std::str::from_utf8(s.as_bytes()).is_ok() && inside(s.as_bytes(), buf),
+                )
+            })
         })
-        .map_err(|p| Violation::from_panic(&format!("dlt_zero_terminated_string(size={}) on {}", size, hex_short(buf)), &p))?;
+        .map_err(|p| {
+            Violation::from_panic(
+                &format!(
+                    "dlt_zero_terminated_string(size={}) on {}",
+                    size,
+                    hex_short(buf)
+                ),
+                &p,
+            )
+        })?;
         if let Ok((rest_ok, str_ok)) = r {
             if !rest_ok || !str_ok {
                 return Err(viol!("string-result", "dlt_zero_terminated_string(size={}) returned remainder inside={} / valid str={} ({})", size, rest_ok, str_ok, hex_short(buf)));
             }
         }
     }
-    let e = if big_endian { Endianness::Big } else { Endianness::Little };
-    let r = guard(|| construct_arguments(e, types, buf)).map_err(|p| Violation::from_panic(&format!("construct_arguments({:?}, {:?}) on {}", e, types, hex_short(buf)), &p))?;
+    let e = if big_endian {
+        Endianness::Big
+    } else {
+        Endianness::Little
+    };
+    let r = guard(|| construct_arguments(e, types, buf)).map_err(|p| {
+        Violation::from_panic(
+            &format!(
+                "construct_arguments({:?}, {:?}) on {}",
+                e,
+                types,
+                hex_short(buf)
+            ),
+            &p,
+        )
+    })?;
     if r.is_ok() {
         // (the statement's "can be re-serialised and measured" clause is about returned *messages*; an argument list
         // built by construct_arguments from a 65535-byte string cannot be written as a verbose argument at all)
@@ -266,25 +483,52 @@ pub fn c03(buf: &[u8], filter_idx: u8, size_sel: u8, types: &[dlt_core::dlt::Typ
 
 /// (offset of the message start, declared LEN, HTYP) read from the raw bytes only
 fn declared(buf: &[u8], storage: bool) -> Option<(usize, usize, u8)> {
-    let start = if storage { refcodec::find_pattern(buf)? + 16 } else { 0 };
+    let start = if storage {
+        refcodec::find_pattern(buf)? + 16
+    } else {
+        0
+    };
     if buf.len() < start + 4 {
         return None;
     }
-    Some((start, u16::from_be_bytes([buf[start + 2], buf[start + 3]]) as usize, buf[start]))
+    Some((
+        start,
+        u16::from_be_bytes([buf[start + 2], buf[start + 3]]) as usize,
+        buf[start],
+    ))
 }
 
-pub fn c04(buf: &[u8], storage: bool, extra_filter: Option<&ProcessedDltFilterConfig>) -> CheckResult {
+pub fn c04(
+    buf: &[u8],
+    storage: bool,
+    extra_filter: Option<&ProcessedDltFilterConfig>,
+) -> CheckResult {
     let mut pass = Pass::new(false);
     let filters: Vec<Option<ProcessedDltFilterConfig>> = (0..8).map(filter_by_index).collect();
-    let mut all: Vec<Option<&ProcessedDltFilterConfig>> = filters.iter().map(|f| f.as_ref()).collect();
+    let mut all: Vec<Option<&ProcessedDltFilterConfig>> =
+        filters.iter().map(|f| f.as_ref()).collect();
     if extra_filter.is_some() {
         all.push(extra_filter);
     }
     let mut first_rest: Option<(usize, usize)> = None; // (filter index, rest len)
     for (fi, f) in all.iter().enumerate() {
-        let res = guard(|| dlt_message(buf, *f, storage).map(|(rest, pm)| (is_suffix(rest, buf), rest.len(), pm)))
-            .map_err(|p| Violation::from_panic(&format!("dlt_message(storage={}, filter #{}) on {}", storage, fi, hex_short(buf)), &p))?;
-        let Ok((suffix, rest_len, pm)) = res else { continue };
+        let res = guard(|| {
+            dlt_message(buf, *f, storage).map(|(rest, pm)| (is_suffix(rest, buf), rest.len(), pm))
+        })
+        .map_err(|p| {
+            Violation::from_panic(
+                &format!(
+                    "dlt_message(storage={}, filter #{}) on {}",
+                    storage,
+                    fi,
+                    hex_short(buf)
+                ),
+                &p,
+            )
+        })?;
+        let Ok((suffix, rest_len, pm)) = res else {
+            continue;
+        };
         let kind = match &pm {
             ParsedMessage::Item(_) => "item",
             ParsedMessage::FilteredOut(_) => "filtered",
@@ -307,7 +551,13 @@ pub fn c04(buf: &[u8], storage: bool, extra_filter: Option<&ProcessedDltFilterCo
         if let ParsedMessage::FilteredOut(n) = &pm {
             let want = len as i64 - headers_len(htyp) as i64;
             if *n as i64 != want {
-                return Err(viol!("consume:filtered:payload-count", "FilteredOut({}) but the declared payload has {} bytes ({})", n, want, hex_short(buf)));
+                return Err(viol!(
+                    "consume:filtered:payload-count",
+                    "FilteredOut({}) but the declared payload has {} bytes ({})",
+                    n,
+                    want,
+                    hex_short(buf)
+                ));
             }
             pass.classes.push("filtered-out");
             pass.nontrivial = true;
@@ -336,16 +586,29 @@ pub fn c04(buf: &[u8], storage: bool, extra_filter: Option<&ProcessedDltFilterCo
         pass.classes.push("ok");
     }
     if storage {
-        let r = guard(|| dlt_consume_msg(buf).map(|(rest, c)| (is_suffix(rest, buf), rest.len(), c))).map_err(|p| Violation::from_panic(&format!("dlt_consume_msg on {}", hex_short(buf)), &p))?;
+        let r =
+            guard(|| dlt_consume_msg(buf).map(|(rest, c)| (is_suffix(rest, buf), rest.len(), c)))
+                .map_err(|p| {
+                Violation::from_panic(&format!("dlt_consume_msg on {}", hex_short(buf)), &p)
+            })?;
         match r {
             Ok((_, _, None)) => {
                 if !buf.is_empty() {
-                    return Err(viol!("consume-msg:none-on-nonempty", "dlt_consume_msg reported no message on a non-empty input ({})", hex_short(buf)));
+                    return Err(viol!(
+                        "consume-msg:none-on-nonempty",
+                        "dlt_consume_msg reported no message on a non-empty input ({})",
+                        hex_short(buf)
+                    ));
                 }
             }
             Ok((suffix, rest_len, Some(c))) => {
-                let len = if buf.len() >= 20 { u16::from_be_bytes([buf[18], buf[19]]) as usize } else { usize::MAX };
-                if !suffix || c as usize != 16 + len || buf.len() - rest_len != c as usize || c == 0 {
+                let len = if buf.len() >= 20 {
+                    u16::from_be_bytes([buf[18], buf[19]]) as usize
+                } else {
+                    usize::MAX
+                };
+                if !suffix || c as usize != 16 + len || buf.len() - rest_len != c as usize || c == 0
+                {
                     return Err(viol!("consume-msg:wrong-count", "dlt_consume_msg consumed {} (remainder {} of {} bytes), declared length {} ({})", c, rest_len, buf.len(), len, hex_short(buf)));
                 }
                 pass.classes.push("consume-msg-ok");
@@ -358,16 +621,28 @@ pub fn c04(buf: &[u8], storage: bool, extra_filter: Option<&ProcessedDltFilterCo
     let mut input = buf;
     let mut steps = 0usize;
     loop {
-        let r = guard(|| dlt_message(input, None, storage).map(|(rest, _)| rest.len())).map_err(|p| Violation::from_panic("dlt_message while iterating", &p))?;
+        let r = guard(|| dlt_message(input, None, storage).map(|(rest, _)| rest.len()))
+            .map_err(|p| Violation::from_panic("dlt_message while iterating", &p))?;
         match r {
             Ok(rest_len) if rest_len < input.len() => {
                 input = &input[input.len() - rest_len..];
                 steps += 1;
                 if steps > bound {
-                    return Err(viol!("consume:iteration-bound", "iterating dlt_message over {} bytes took more than {} steps", buf.len(), bound));
+                    return Err(viol!(
+                        "consume:iteration-bound",
+                        "iterating dlt_message over {} bytes took more than {} steps",
+                        buf.len(),
+                        bound
+                    ));
                 }
             }
-            Ok(_) => return Err(viol!("consume:no-progress", "dlt_message returned Ok without consuming anything ({})", hex_short(input))),
+            Ok(_) => {
+                return Err(viol!(
+                    "consume:no-progress",
+                    "dlt_message returned Ok without consuming anything ({})",
+                    hex_short(input)
+                ))
+            }
             Err(_) => break,
         }
     }
@@ -376,18 +651,25 @@ pub fn c04(buf: &[u8], storage: bool, extra_filter: Option<&ProcessedDltFilterCo
     }
     pass.classes.sort();
     pass.classes.dedup();
-    Ok(pass.class(if storage { "storage-mode" } else { "plain-mode" }))
+    Ok(pass.class(if storage {
+        "storage-mode"
+    } else {
+        "plain-mode"
+    }))
 }
 
 // ------------------------------------------------------------------------------------------------
 // C16: parse -> write -> parse is a fixpoint
 
 pub fn c16(buf: &[u8], storage: bool) -> CheckResult {
-    let r = guard(|| dlt_message(buf, None, storage).map(|(rest, pm)| (rest.len(), pm))).map_err(|p| Violation::from_panic(&format!("dlt_message on {}", hex_short(buf)), &p))?;
+    let r = guard(|| dlt_message(buf, None, storage).map(|(rest, pm)| (rest.len(), pm)))
+        .map_err(|p| Violation::from_panic(&format!("dlt_message on {}", hex_short(buf)), &p))?;
     let Ok((rest_len, ParsedMessage::Item(m))) = r else {
         return Ok(Pass::new(false).class("no-message"));
     };
-    let b2 = guard(|| m.as_bytes()).map_err(|p| Violation::from_panic(&format!("as_bytes of parsed message {}", short_dbg(&m)), &p))?;
+    let b2 = guard(|| m.as_bytes()).map_err(|p| {
+        Violation::from_panic(&format!("as_bytes of parsed message {}", short_dbg(&m)), &p)
+    })?;
     let s = if storage { 16 } else { 0 };
     // the premise is read off the re-serialised bytes themselves: "has the length its own header declares" = the
     // 16-bit length field the writer emitted equals the number of bytes it emitted (on a writer that copies the
@@ -405,7 +687,14 @@ pub fn c16(buf: &[u8], storage: bool) -> CheckResult {
         PayloadContent::ControlMsg(..) => "control",
         PayloadContent::NetworkTrace(_) => "nwtrace",
     };
-    let r2 = guard(|| dlt_message(&b2, None, storage).map(|(rest, pm)| (rest.len(), pm))).map_err(|p| Violation::from_panic(&format!("dlt_message on re-serialised {}", hex_short(&b2)), &p))?;
+    let r2 = guard(|| dlt_message(&b2, None, storage).map(|(rest, pm)| (rest.len(), pm))).map_err(
+        |p| {
+            Violation::from_panic(
+                &format!("dlt_message on re-serialised {}", hex_short(&b2)),
+                &p,
+            )
+        },
+    )?;
     match r2 {
         Ok((0, ParsedMessage::Item(m2))) => {
             msg_eq_bits(&m, &m2).map_err(|d| viol!(format!("reserialise:{}:differs", kind), "re-serialised message parses to a different message: {}\n  input={}\n  rewritten={}", d, hex_short(buf), hex_short(&b2)))?;
@@ -424,9 +713,16 @@ pub fn c16(buf: &[u8], storage: bool) -> CheckResult {
     }
     let consumed = &buf[..buf.len() - rest_len];
     // the parser skipped junk in front of the storage header: compare from the pattern on
-    let start = if storage { refcodec::find_pattern(buf).unwrap_or(0) } else { 0 };
+    let start = if storage {
+        refcodec::find_pattern(buf).unwrap_or(0)
+    } else {
+        0
+    };
     let normalised = consumed[start.min(consumed.len())..] != b2[..];
-    Ok(Pass::new(normalised).class(kind).class_if(normalised, "parser-normalised-input").class_if(!normalised, "canonical-input"))
+    Ok(Pass::new(normalised)
+        .class(kind)
+        .class_if(normalised, "parser-normalised-input")
+        .class_if(!normalised, "canonical-input"))
 }
 
 // ------------------------------------------------------------------------------------------------
@@ -460,9 +756,26 @@ pub fn c13_reference(types: &[RType], be: bool, data: &[u8]) -> Option<Vec<RVal>
 /// construct_arguments on an arbitrary payload must agree with the reference decode
 pub fn c13_decode(types: &[RType], be: bool, data: &[u8]) -> CheckResult {
     let ctypes: Vec<_> = types.iter().map(type_to_crate).collect();
-    let e = if be { Endianness::Big } else { Endianness::Little };
-    let got = guard(|| construct_arguments(e, &ctypes, data)).map_err(|p| Violation::from_panic(&format!("construct_arguments({:?}, {:?}) on {}", e, types, hex_short(data)), &p))?;
-    if types.iter().any(|t| matches!(t.kind, RKind::SintFx(_) | RKind::UintFx(_))) {
+    let e = if be {
+        Endianness::Big
+    } else {
+        Endianness::Little
+    };
+    let got = guard(|| construct_arguments(e, &ctypes, data)).map_err(|p| {
+        Violation::from_panic(
+            &format!(
+                "construct_arguments({:?}, {:?}) on {}",
+                e,
+                types,
+                hex_short(data)
+            ),
+            &p,
+        )
+    })?;
+    if types
+        .iter()
+        .any(|t| matches!(t.kind, RKind::SintFx(_) | RKind::UintFx(_)))
+    {
         return Ok(Pass::new(false).class("fixed-point:no-panic-only"));
     }
     let want = c13_reference(types, be, data);
@@ -516,7 +829,9 @@ pub const SIGNAL_KINDS: [RKind; 15] = [
 
 /// target `bytes`: first byte = mode bits (bit0 storage, bits1-3 filter index, bit4 format logs), rest = buffer
 pub fn fuzz_bytes(prop: &str, data: &[u8]) -> CheckResult {
-    let Some((&mode, buf)) = data.split_first() else { return Ok(Pass::new(false)) };
+    let Some((&mode, buf)) = data.split_first() else {
+        return Ok(Pass::new(false));
+    };
     let storage = mode & 1 != 0;
     match prop {
         "C02" => c02_decode(buf, storage),
@@ -528,8 +843,25 @@ pub fn fuzz_bytes(prop: &str, data: &[u8]) -> CheckResult {
         _ => {
             install_logger();
             format_logs(mode & 0x10 != 0 && buf.len() < 2048);
-            let types: Vec<dlt_core::dlt::TypeInfo> = buf.iter().take((mode >> 5) as usize).map(|b| type_to_crate(&RType { kind: SIGNAL_KINDS[*b as usize % 15], vari: false, trai: false, scod: 0 })).collect();
-            let r = c03(buf, (mode >> 1) & 7, buf.len() as u8, &types, mode & 0x80 != 0);
+            let types: Vec<dlt_core::dlt::TypeInfo> = buf
+                .iter()
+                .take((mode >> 5) as usize)
+                .map(|b| {
+                    type_to_crate(&RType {
+                        kind: SIGNAL_KINDS[*b as usize % 15],
+                        vari: false,
+                        trai: false,
+                        scod: 0,
+                    })
+                })
+                .collect();
+            let r = c03(
+                buf,
+                (mode >> 1) & 7,
+                buf.len() as u8,
+                &types,
+                mode & 0x80 != 0,
+            );
             format_logs(false);
             r
         }
@@ -538,12 +870,22 @@ pub fn fuzz_bytes(prop: &str, data: &[u8]) -> CheckResult {
 
 /// target `args`: byte0 = bit0 byte order, bits1-4 number of types; then one kind selector per type; rest = payload
 pub fn fuzz_args(data: &[u8]) -> CheckResult {
-    let Some((&h, rest)) = data.split_first() else { return Ok(Pass::new(false)) };
+    let Some((&h, rest)) = data.split_first() else {
+        return Ok(Pass::new(false));
+    };
     let n = ((h >> 1) & 15) as usize;
     if rest.len() < n {
         return Ok(Pass::new(false));
     }
-    let types: Vec<RType> = rest[..n].iter().map(|b| RType { kind: SIGNAL_KINDS[(*b & 15) as usize % 15], vari: b & 0x10 != 0, trai: b & 0x20 != 0, scod: b >> 6 }).collect();
+    let types: Vec<RType> = rest[..n]
+        .iter()
+        .map(|b| RType {
+            kind: SIGNAL_KINDS[(*b & 15) as usize % 15],
+            vari: b & 0x10 != 0,
+            trai: b & 0x20 != 0,
+            scod: b >> 6,
+        })
+        .collect();
     c13_decode(&types, h & 1 != 0, &rest[n..])
 }
 
@@ -554,13 +896,24 @@ pub fn fuzz_fibex(data: &[u8], path: &std::path::Path) -> CheckResult {
         return Ok(Pass::new(false));
     }
     let p = path.to_string_lossy().to_string();
-    let r = guard(|| dlt_core::fibex::gather_fibex_data(dlt_core::fibex::FibexConfig { fibex_file_paths: vec![p] })).map_err(|p| Violation::from_panic("gather_fibex_data", &p))?;
-    Ok(Pass::new(true).class(if r.is_some() { "verdict:model" } else { "verdict:refused" }))
+    let r = guard(|| {
+        dlt_core::fibex::gather_fibex_data(dlt_core::fibex::FibexConfig {
+            fibex_file_paths: vec![p],
+        })
+    })
+    .map_err(|p| Violation::from_panic("gather_fibex_data", &p))?;
+    Ok(Pass::new(true).class(if r.is_some() {
+        "verdict:model"
+    } else {
+        "verdict:refused"
+    }))
 }
 
 /// Byte-level delta debugging under a fixed oracle: keep shrinking while the same signature is reported.
 pub fn minimise(data: &[u8], fails: &dyn Fn(&[u8]) -> Option<String>) -> Vec<u8> {
-    let Some(sig) = fails(data) else { return data.to_vec() };
+    let Some(sig) = fails(data) else {
+        return data.to_vec();
+    };
     let mut cur = data.to_vec();
     let mut chunk = (cur.len() / 2).max(1);
     let mut budget = 20_000usize;
